@@ -20,8 +20,8 @@ func init() {
 		"per request: responses counted and matched (stamp: response type, seq, path, method, serialize type; result computed from its own arguments), handler invocations counted, " +
 		"connection state observed; every request is replayed on the Lean server model; non-trivial = request other than a plain successful call; distinct = distinct input line"
 	register("c04", "C04 focus (response count, stamping, dispatch styles, pooled argument and reply objects through reflected methods and registered functions): "+rule, func(o *Out, r *rand.Rand) { runSrv(o, r, "c04") })
-	register("c07", "C07 focus (failure kinds, error texts, server keeps serving; plus a real client.Client issuing sequential and pipelined failing calls whose errors are kept and judged after later traffic on the same connection; plus a router-handler panic whose reporting (HandleServiceError) is held while other connections are served): "+rule, func(o *Out, r *rand.Rand) { runSrv(o, r, "c07") })
-	register("c15", "C15 focus (rejections at every stage, flags, tokens; native ingress + gateway + JSON-RPC ingress): "+rule, func(o *Out, r *rand.Rand) { runSrv(o, r, "c15"); runC15Ingress(o, r) })
+	register("c07", "C07 focus (failure kinds, error texts, server keeps serving; plus a real client.Client issuing sequential and pipelined failing calls whose errors are kept and judged after later traffic on the same connection; plus a router-handler panic whose reporting (HandleServiceError) is held while other connections are served; plus, in a child process, handlers of all three dispatch styles that panic with an error value and with a typed-nil error whose Error() faults: the server process must survive and keep serving): "+rule, func(o *Out, r *rand.Rand) { runSrv(o, r, "c07") })
+	register("c15", "C15 focus (rejections at every stage, flags, tokens; native ingress + gateway + JSON-RPC ingress; accept-stage rejection also on a unix-socket listener, which bypasses the port multiplexer): "+rule, func(o *Out, r *rand.Rand) { runSrv(o, r, "c15"); runC15Ingress(o, r) })
 }
 
 type srvReq struct {
@@ -231,6 +231,9 @@ func runSrv(o *Out, r *rand.Rand, focus string) {
 		if focus == "c07" {
 			c07Client(o, rig, r, &id, cfg)
 			c07PanicHold(o, rig, r, &id, cfg)
+			if !cfg.auth && !cfg.pool {
+				c07AwkwardPanics(o)
+			}
 		}
 		if focus == "c04" && !cfg.auth {
 			srvPooled(o, rig, r, &id, "c04")
